@@ -237,13 +237,19 @@ def models(src):
     for who in ['prog'] + names:
         refs[who] = src.pick(f'{who}_ref', [None] + names + ['ghost'])
         sets[who] = src.pick_flag(f'{who}_sets_load')
-    load = {'prog': 99, 'm1': 11, 'm2': 22, 'm3': 33}
+    # the values are solver variables inside the documented domain (also its bounds 0 and 100: a value equal to the
+    # default still supersedes a referenced one)
+    load, text = {}, {}
+    for who in ['prog'] + names:
+        load[who] = src.int(f'{who}_load', 0, 100)
+        text[who] = f'@{who}_load@'
+        numbers.values[text[who]] = load[who]
     doc = '<root>'
     for m in names:
         doc += (f'<model name="{m}">' + _elt('reference', refs[m])
-                + (_elt('expected_loading', load[m]) if sets[m] else '') + '</model>')
+                + (_elt('expected_loading', text[m]) if sets[m] else '') + '</model>')
     doc += ('<application name="app"><programs><program name="prog">' + _elt('reference', refs['prog'])
-            + (_elt('expected_loading', load['prog']) if sets['prog'] else '') + '</program></programs></application></root>')
+            + (_elt('expected_loading', text['prog']) if sets['prog'] else '') + '</program></programs></application></root>')
     try:
         parser = _parser(core, {'rules.xml': doc}, numbers)
         rules = ProcessRules(core)
@@ -261,9 +267,10 @@ def models(src):
             if sets[who]:
                 return load[who]
         return 0
-    allowed = {resolve(3), resolve(4)}        # "depth 3": three elements, or the program plus three models
-    src.check('references-followed-to-depth-3-own-values-first', rules.expected_load in allowed, sig='model',
-              got=rules.expected_load, allowed=sorted(allowed), refs=refs, sets=sets)
+    from symx import sor
+    a3, a4 = resolve(3), resolve(4)           # "depth 3": three elements, or the program plus three models
+    src.check('references-followed-to-depth-3-own-values-first',
+              sor(rules.expected_load == a3, rules.expected_load == a4), sig='model', refs=refs, sets=sets)
     src.check('no-internal-error', not core.logger.tracebacks())
     src.reach('resolved')
 
